@@ -465,7 +465,7 @@ def run_children(items, hashseeds) -> list:
         for hs in hashseeds:
             env = dict(os.environ)
             env["PYTHONHASHSEED"] = str(hs)
-            env["PYTHONPATH"] = ROOT
+            env["PYTHONPATH"] = ROOT + os.pathsep + os.environ.get("PYTHONPATH", "")
             p = subprocess.run([sys.executable, script, ROOT, path], env=env,
                                capture_output=True, text=True)
             line = [ln for ln in p.stdout.splitlines()
